@@ -136,6 +136,7 @@ PROPS["C15"] = {
     "units": [
         {"name": "gnet-lb", "pkgdir": ".", "files": ["harness/gnet/c15_lb.go"], "mode": "int", "unwind": 300, "contracts": ["byteslice", "ringbuffer"],
          "stub_values": GNET_STUB_VALUES,
+         "rewrites": {"load_balancer.go": _textual_rewrite([("netAddr.String()", "vstubAddrString(netAddr)")], must=False)},
          "cfg": {"vcfg": {"maxN": 16, "maxNcount": 4, "maxNlc": 6}}, "cfg_thorough": {"vcfg": {"maxN": 128, "maxNcount": 4, "maxNlc": 8}}},
     ],
 }
@@ -146,8 +147,10 @@ def _gnet_go_rewrite(src, out):
     # every strings.ReplaceAll call of the file is redirected (not only the one on protoAddr): when the escaping step is
     # rewritten or removed the harness still builds and the escape-before-parse oracle decides (round-4 change C16-r4m1)
     s = s.replace("strings.ReplaceAll(", "vstubReplaceAll(")
-    for a, b in [("url.Parse(", "vstubURLParse("),
-                 ("path.Join(u.Host,", "vstubPathJoin(u.Host,"), ("runtime.NumCPU()", "vstubNumCPU()")]:
+    # likewise path.Join: if the join/clean step is rewritten the stub is simply never called and the oracle
+    # "the Unix endpoint is the joined, cleaned path" decides (round-5 change C16-r5m1)
+    s = s.replace("path.Join(u.Host,", "vstubPathJoin(u.Host,")
+    for a, b in [("url.Parse(", "vstubURLParse("), ("runtime.NumCPU()", "vstubNumCPU()")]:
         if a not in s:
             raise RuntimeError("rewrite anchor %r not found in gnet.go" % a)
         s = s.replace(a, b)
